@@ -222,6 +222,7 @@ pub fn run(scn: &Value) -> Value {
     match r {
         Ok((a, b)) => json!({"kind": "value", "a": a, "b": b, "inrange": cx.inrange, "utf8ok": cx.utf8ok, "where": "", "err": "", "errfield": "", "hex": hex}),
         Err(m) => {
+            let m = String::from_utf8_lossy(m.as_bytes()).into_owned();   // never let invalid UTF-8 into the observation line
             // which declared field the message names (serde: duplicate field `x`, missing field `x`)
             let ef = if m.contains(&format!("`{}`", NAMES[cx.v].0)) { "a" } else if m.contains(&format!("`{}`", NAMES[cx.v].1)) { "b" } else { "" };
             json!({"kind": "error", "a": absent(), "b": absent(), "inrange": true, "utf8ok": true, "where": "", "err": err_class(&m), "errfield": ef, "msg": util::clip(&m, 160), "hex": hex})
